@@ -651,11 +651,17 @@ class Parser:
             TokenType.RSHIFT_ASSIGN,
             TokenType.URSHIFT_ASSIGN,
         ):
+            self._check_reference(expr, "Invalid assignment target")
             op = self._advance().value
             right = self._parse_assignment_expression(exclude_in)
             return AssignmentExpression(op, expr, right)
 
         return expr
+
+    def _check_reference(self, node: Node, message: str) -> None:
+        """The target of an assignment or of ++/-- must be a variable or a property."""
+        if not isinstance(node, (Identifier, MemberExpression)):
+            raise self._error(message)
 
     def _is_arrow_function_single_param(self) -> bool:
         """Check if this is a single-param arrow function: x => ..."""
@@ -804,6 +810,7 @@ class Parser:
             TokenType.RSHIFT_ASSIGN,
             TokenType.URSHIFT_ASSIGN,
         ):
+            self._check_reference(left, "Invalid assignment target")
             op = self._advance().value
             right = self._parse_assignment_expression(exclude_in)
             left = AssignmentExpression(op, left, right)
@@ -956,6 +963,7 @@ class Parser:
         if self._check(TokenType.PLUSPLUS, TokenType.MINUSMINUS):
             op_token = self._advance()
             argument = self._parse_unary_expression()
+            self._check_reference(argument, "Invalid operand of prefix " + op_token.value)
             return UpdateExpression(op_token.value, argument, prefix=True)
 
         return self._parse_postfix_expression()
@@ -993,6 +1001,7 @@ class Parser:
                 expr = CallExpression(expr, args)
             elif self._check(TokenType.PLUSPLUS, TokenType.MINUSMINUS):
                 # Postfix increment/decrement
+                self._check_reference(expr, "Invalid operand of postfix " + self.current.value)
                 op = self._advance().value
                 expr = UpdateExpression(op, expr, prefix=False)
             else:
